@@ -575,27 +575,31 @@ Proof.
       try contradiction.
     + pose proof (engine_put_inv t e (oid_of i) (rec_of u i) (bytes_of i) ox op ob st HI Ha (Hu i)) as HP.
       destruct (engine_put t e (oid_of i) (rec_of u i) (bytes_of i) ox op ob st) as [r st1].
-      inversion H; subst. simpl. auto.
+      inversion H; subst. unfold Inv8; simpl in *. auto.
     + pose proof (engine_get_evolves t e (oid_of i) ord st) as HE.
       destruct (engine_get t e (oid_of i) ord st) as [g st1]. destruct (code_of_gres g).
       inversion H; subst. simpl in *. split; [eapply Inv_evolves; eauto | auto].
     + pose proof (engine_head_evolves t e (oid_of i) ord st) as HE.
       destruct (engine_head t e (oid_of i) ord st) as [g st1]. destruct (code_of_gres g).
       inversion H; subst. simpl in *. split; [eapply Inv_evolves; eauto | auto].
-    + inversion H; subst. simpl. split; auto. unfold engine_set_mode.
-      destruct (nth_error st sh) as [s0|] eqn:Hs; auto.
+    + inversion H; subst. unfold Inv8; simpl. split; [|auto]. unfold engine_set_mode.
+      destruct (nth_error st sh) as [s0|] eqn:Hs; [|exact HI].
       pose proof (Inv_nth_good _ _ _ HI Hs) as G.
-      destruct (good_same_data s0 (set_mode (if reset then Shard (s_ro s0) (s_deg s0) (s_meta s0) (s_garb s0) (s_blob s0) (s_frd s0) (s_fwr s0) 0 else s0) ro deg)) as [A B];
-        try (destruct reset; reflexivity); auto; try apply G.
-      { destruct reset; simpl; apply G. }
-      eapply Inv_upd; eauto.
-    + inversion H; subst. simpl. split; auto. unfold set_fault.
-      destruct (nth_error st sh) as [s0|] eqn:Hs; auto.
+      assert (G6 : s_frd s0 = false) by apply G.
+      destruct reset.
+      * destruct (good_same_data s0 (set_mode (Shard (s_ro s0) (s_deg s0) (s_meta s0) (s_garb s0) (s_blob s0) (s_frd s0) (s_fwr s0) 0) ro deg)
+                    eq_refl eq_refl eq_refl G6 G) as [A B].
+        eapply Inv_upd; eauto.
+      * destruct (good_same_data s0 (set_mode s0 ro deg) eq_refl eq_refl eq_refl G6 G) as [A B].
+        eapply Inv_upd; eauto.
+    + subst frd. inversion H; subst. unfold Inv8; simpl. split; [|auto]. unfold set_fault.
+      destruct (nth_error st sh) as [s0|] eqn:Hs; [|exact HI].
       pose proof (Inv_nth_good _ _ _ HI Hs) as G.
-      destruct (good_same_data s0 (Shard (s_ro s0) (s_deg s0) (s_meta s0) (s_garb s0) (s_blob s0) false fwr (s_err s0))) as [A B]; auto.
+      destruct (good_same_data s0 (Shard (s_ro s0) (s_deg s0) (s_meta s0) (s_garb s0) (s_blob s0) false fwr (s_err s0))
+                  eq_refl eq_refl eq_refl eq_refl G) as [A B].
       eapply Inv_upd; eauto.
-    + inversion H; subst. simpl. auto.
-    + inversion H; subst. simpl. split; auto. apply gc_garbage_inv; auto.
+    + inversion H; subst. unfold Inv8; simpl. auto.
+    + inversion H; subst. unfold Inv8; simpl. split; auto. apply gc_garbage_inv; auto.
   - inversion H; subst. simpl. split; [auto|]. split; [auto|].
     clear - Hok. induction gcs; simpl; constructor; auto.
   - destruct (gc_pass (thr en) (epoch en) i rank (nthN outc) (nthL ords) (shards en) gcs) as [[st' gcs']|] eqn:Hgc;
